@@ -55,6 +55,9 @@ pub enum MsgToServer {
         text: String,
         version: i32,
     },
+    DidClose {
+        url: Url,
+    },
     DidChangeConfiguration(ServerConfigItem),
     WillRenameFile {
         old_url: Url,
@@ -184,6 +187,7 @@ impl Server {
                         self.did_change(&url, &text, version);
                         self.latest_change = Some((url, text, version));
                     }
+                    MsgToServer::DidClose { url } => self.did_close(&url),
                     MsgToServer::DidChangeConfiguration(x) => self.config.set(x),
                     MsgToServer::WillRenameFile { old_url } => self.on_remove(old_url),
                     MsgToServer::DidRenameFile { new_url } => self.did_rename_files(new_url),
@@ -280,6 +284,37 @@ impl Server {
             self.on_change(&metadata.project.name, url, text, version);
         } else {
             self.on_change("", url, text, version);
+        }
+    }
+
+    /// The editor no longer owns the document: the file on disk (if any) is
+    /// the truth again.  Forget the buffer and have the project re-read.
+    fn did_close(&mut self, url: &Url) {
+        self.forget_buffer(url);
+        if let Some(path) = url.to_file_path() {
+            if let Some(path_id) = resource_table::get_path_id(path.to_path_buf()) {
+                // symbols of the buffer text; background analysis re-registers
+                // the file from disk if it still exists
+                Analyzer::drop_file(path_id, None);
+            }
+            block_on(
+                self.client
+                    .publish_diagnostics(url.clone(), Vec::new(), None),
+            );
+        }
+        // same trigger as a rename: queue one background run of the project
+        self.did_rename_files(url.clone());
+    }
+
+    /// Drops everything that would keep a closed / renamed / deleted
+    /// document's last buffer text alive.
+    fn forget_buffer(&mut self, url: &Url) {
+        if let Some(path) = url.to_file_path() {
+            self.document_map.remove(path.as_ref());
+            self.parser_map.remove(path.as_ref());
+        }
+        if matches!(&self.latest_change, Some((x, _, _)) if x == url) {
+            self.latest_change = None;
         }
     }
 
@@ -841,6 +876,7 @@ impl Server {
     }
 
     fn on_remove(&mut self, url: Url) {
+        self.forget_buffer(&url);
         if let Some(path) = url.to_file_path()
             && let Some(path_id) = resource_table::get_path_id(path.to_path_buf())
         {
